@@ -10,7 +10,7 @@ from ..model import calls_in, unparse, walk_no_nested
 from ..norm import Normalizer, calls_to, kwarg, mentions_name, show, subterms
 from ..rules import calls_from, r_effect_free, r_guard_pred, r_live, r_thread, return_terms
 from ..sdp import Skeleton, psd_ok
-from .disc_common import _objective_pairing, expand1, returns_optimum
+from .disc_common import _objective_pairing, dual_readback_transposed, expand1, real_objective, returns_optimum
 
 
 def run(ctx):  # noqa: C901
@@ -81,6 +81,7 @@ def run(ctx):  # noqa: C901
         d = sk.dangling()
         ctx.ob("R-SDP", pp, "S1 every constraint reaches the problem", not d, "ok" if not d else f"`{unparse(d[0].node)[:50]}` dropped")
         _objective_pairing(ctx, pp, p, ("probs", "dms", "measurements"))
+        real_objective(ctx, pp, p)
         okdm = any(isinstance(n, ast.Assign) and isinstance(n.targets[0], ast.Name) and n.targets[0].id == "dms" and isinstance(n.value, ast.ListComp)
                    and unparse(n.value.generators[0].iter) == "vectors" and not n.value.generators[0].ifs for n in walk_no_nested(pp.node))
         ctx.ob("R-ENUM", pp, "rho_i = to_density_matrix(vectors[i]) for every i", okdm, "in order, unfiltered" if okdm else "density matrices not built one per state")
@@ -132,6 +133,7 @@ def run(ctx):  # noqa: C901
         oks = any(any(kw.arg == "solver" and unparse(kw.value) == "solver" for kw in c.keywords) for c in sd.solves)
         ctx.ob("R-THREAD", dd, "solver->solve(solver=)", oks, "used" if oks else "solver ignored")
         returns_optimum(ctx, dd, sd)
+        dual_readback_transposed(ctx, dd)
 
     # ---- symmetric extension hierarchy -----------------------------------------------------------------
     sh = m.func("symmetric_extension_hierarchy.symmetric_extension_hierarchy")
